@@ -81,6 +81,10 @@ func mutateSweep(id string, jobs int, only string) error {
 		nw := strings.ReplaceAll(repl, "$OLD", old)
 		muts = append(muts, mutant{File: p.Filename, Pos: p, Func: fname, Op: op, Old: old, New: nw, start: p.Offset, end: e.Offset})
 	}
+	ops := map[string]bool{}
+	for _, o := range strings.Split(os.Getenv("MIXVET_MUT_OPS"), ",") {
+		ops[strings.TrimSpace(o)] = true
+	}
 	flip := map[token.Token]string{token.LSS: "<=", token.LEQ: "<", token.GTR: ">=", token.GEQ: ">", token.EQL: "!=", token.NEQ: "=="}
 	for _, x := range fs {
 		var body ast.Node
@@ -98,8 +102,16 @@ func mutateSweep(id string, jobs int, only string) error {
 			case *ast.FuncLit:
 				return false // closures are separate functions in c.Funcs
 			case *ast.IfStmt:
+				// plain error propagation is the error-discipline rules' business
+				if be, ok := s.Cond.(*ast.BinaryExpr); ok {
+					if id, ok := be.X.(*ast.Ident); ok && id.Name == "err" {
+						return true
+					}
+				}
 				add(x.name, s.Cond, "cond-false", "false")
-				add(x.name, s.Cond, "cond-neg", "!($OLD)")
+				if ops["neg"] {
+					add(x.name, s.Cond, "cond-neg", "!($OLD)")
+				}
 			case *ast.BranchStmt:
 				if s.Tok == token.BREAK && s.Label == nil {
 					add(x.name, s, "break->continue", "continue")
@@ -108,7 +120,10 @@ func mutateSweep(id string, jobs int, only string) error {
 					add(x.name, s, "continue->break", "break")
 				}
 			case *ast.BinaryExpr:
-				if r, ok := flip[s.Op]; ok {
+				if id, ok := s.X.(*ast.Ident); ok && id.Name == "err" {
+					return true
+				}
+				if r, ok := flip[s.Op]; ok && ops["op"] {
 					// operator token only
 					opPos := w.Fset.Position(s.OpPos)
 					if _, ok := src[opPos.Filename]; !ok {
